@@ -213,25 +213,37 @@ Lemma lexer_rules_split :
   lexer_rules = [rule_at 0; rule_at 1; rule_at 2; rule_at 3; rule_at 4; rule_at 5; rule_at 6; rule_at 7; rule_at 8; rule_at 9].
 Proof. reflexivity. Qed.
 
+Lemma pick_cons_none {kind} (r : rule kind) rs s cur :
+  longest (r_re r) s = None -> pick (r :: rs) s cur = pick rs s cur.
+Proof. intros H. cbn [pick]. rewrite H. reflexivity. Qed.
+
+Lemma pick10 {kind} (r0 r1 r2 r3 r4 r5 r6 r7 r8 r9 : rule kind) s n :
+  longest (r_re r0) s = None -> longest (r_re r1) s = None -> longest (r_re r2) s = None ->
+  longest (r_re r3) s = None -> longest (r_re r4) s = None ->
+  longest (r_re r5) s = Some (S (S n)) ->
+  longest (r_re r6) s = None -> longest (r_re r7) s = None -> longest (r_re r8) s = None ->
+  longest (r_re r9) s = Some 1%nat ->
+  pick [r0; r1; r2; r3; r4; r5; r6; r7; r8; r9] s None = Some (r5, S (S n)).
+Proof.
+  intros H0 H1 H2 H3 H4 H5 H6 H7 H8 H9.
+  rewrite !pick_cons_none by assumption.
+  cbn [pick]. rewrite H5, H6, H7, H8, H9. reflexivity.
+Qed.
+
 Lemma pick_string : forall body tail,
   quotes_preceded 34 body = true -> last body 34 <> 92 ->
   pick lexer_rules (34 :: body ++ 34 :: tail) None = Some (rule_at 5, (length body + 2)%nat).
 Proof.
   intros body tail Hq Hl. rewrite lexer_rules_split.
-  assert (D : forall i, (i < 9)%nat -> i <> 5%nat -> longest (r_re (rule_at i)) (34 :: body ++ 34 :: tail) = None).
-  { intros i Hi H5. destruct (other_rules_dead_on_quote i Hi H5) as [A B]. apply longest_dead; assumption. }
-  assert (S : longest (r_re (rule_at 5)) (34 :: body ++ 34 :: tail) = Some (length body + 2)%nat).
-  { destruct grammar_string_rule as (_ & -> & _). apply longest_string; assumption. }
-  assert (E : longest (r_re (rule_at 9)) (34 :: body ++ 34 :: tail) = Some 1%nat).
-  { destruct error_rule as [-> _]. destruct body; reflexivity. }
-  assert (lt9 : forall i, (i <=? 8)%nat = true -> (i < 9)%nat) by (intros i H; apply Nat.leb_le in H; lia).
-  cbn [pick].
-  rewrite (D 0%nat (lt9 _ eq_refl)) by discriminate. rewrite (D 1%nat (lt9 _ eq_refl)) by discriminate.
-  rewrite (D 2%nat (lt9 _ eq_refl)) by discriminate. rewrite (D 3%nat (lt9 _ eq_refl)) by discriminate.
-  rewrite (D 4%nat (lt9 _ eq_refl)) by discriminate. rewrite S.
-  rewrite (D 6%nat (lt9 _ eq_refl)) by discriminate. rewrite (D 7%nat (lt9 _ eq_refl)) by discriminate.
-  rewrite (D 8%nat (lt9 _ eq_refl)) by discriminate. rewrite E.
-  replace (length body + 2)%nat with (S (S (length body))) by lia. reflexivity.
+  assert (D : forall i, (i <=? 8)%nat = true -> (i =? 5)%nat = false ->
+              longest (r_re (rule_at i)) (34 :: body ++ 34 :: tail) = None).
+  { intros i Hi H5. apply Nat.leb_le in Hi. apply Nat.eqb_neq in H5.
+    destruct (other_rules_dead_on_quote i ltac:(lia) H5) as [A B]. apply longest_dead; assumption. }
+  replace (length body + 2)%nat with (S (S (length body))) by lia.
+  apply pick10; try (apply D; reflexivity).
+  - destruct grammar_string_rule as (_ & -> & _).
+    rewrite longest_string by assumption. f_equal. lia.
+  - destruct error_rule as [-> _]. destruct body; reflexivity.
 Qed.
 
 (* ---- lexing a quoted value at the head of a text ---------------------------------------------------------- *)
@@ -248,7 +260,8 @@ Proof.
   assert (P : pick lexer_rules (quote_value p v ++ rest) None = Some (rule_at 5, length (quote_value p v))).
   { rewrite E. cbn [app]. rewrite <- app_assoc. cbn [app].
     rewrite pick_string by assumption. f_equal. f_equal. cbn [length]. rewrite app_length. cbn [length]. lia. }
-  rewrite (lex_step lexer_rules _ _ _ ltac:(rewrite E; discriminate) P).
+  assert (Hne : quote_value p v ++ rest <> []) by (rewrite E; discriminate).
+  rewrite (lex_step lexer_rules _ _ _ Hne P).
   rewrite skipn_app, skipn_all, Nat.sub_diag. cbn [skipn app].
   rewrite firstn_app, firstn_all, Nat.sub_diag. cbn [firstn]. rewrite app_nil_r.
   destruct grammar_string_rule as (_ & _ & ->).
